@@ -55,14 +55,19 @@ Qed.
 
 (* ------------------------------------------------------------------ output of one chunked read *)
 Lemma chunked_loop_len fuel : forall k c written out c', chunked_read_loop fuel k c written = ROk out c' ->
-  exists more, out = written ++ more /\ lenN more <= k.
+  exists more, out = written ++ more /\ lenN more <= k /\
+    (length (reach (c_src c')) + length more <= length (reach (c_src c)))%nat.
 Proof.
   induction fuel as [|fuel IH]; intros k c written out c' H.
-  - cbn [chunked_read_loop] in H. inversion H. exists []. rewrite app_nil_r, lenN_nil. split; [reflexivity|lia].
+  - cbn [chunked_read_loop] in H. inversion H. exists []. rewrite app_nil_r, lenN_nil. cbn [length].
+    split; [reflexivity|]. split; lia.
   - cbn [chunked_read_loop] in H.
-    destruct (advance (adv_fuel c) c) as [o c1|e c1]; [|discriminate].
-    assert (Hstop : ROk written c1 = ROk out c' -> exists more, out = written ++ more /\ lenN more <= k).
-    { intros E. inversion E. exists []. rewrite app_nil_r, lenN_nil. split; [reflexivity|lia]. }
+    pose proof (advance_R (adv_fuel c) c) as HA.
+    destruct (advance (adv_fuel c) c) as [o c1|e c1]; [|discriminate]. cbn [rst] in HA. destruct HA as [_ HA].
+    assert (Hstop : ROk written c1 = ROk out c' -> exists more, out = written ++ more /\ lenN more <= k /\
+                      (length (reach (c_src c')) + length more <= length (reach (c_src c)))%nat).
+    { intros E. inversion E. subst. exists []. rewrite app_nil_r, lenN_nil. cbn [length].
+      split; [reflexivity|]. split; lia. }
     assert (Hgo : (if k =? 0 then ROk written c1
                    else let '(o2, s') := buf_read (N.min (c_remaining c1) k) (c_src c1) in
                         match o2 with
@@ -70,21 +75,25 @@ Proof.
                         | _ => if (c_remaining c1 - lenN o2 =? 0) || (k - lenN o2 =? 0)
                                then ROk (written ++ o2) {| c_src := s'; c_state := c_state c1; c_remaining := c_remaining c1 - lenN o2 |}
                                else chunked_read_loop fuel (k - lenN o2) {| c_src := s'; c_state := c_state c1; c_remaining := c_remaining c1 - lenN o2 |} (written ++ o2)
-                        end) = ROk out c' -> exists more, out = written ++ more /\ lenN more <= k).
+                        end) = ROk out c' -> exists more, out = written ++ more /\ lenN more <= k /\
+                      (length (reach (c_src c')) + length more <= length (reach (c_src c)))%nat).
     { destruct (k =? 0); [exact Hstop|].
       destruct (buf_read (N.min (c_remaining c1) k) (c_src c1)) as [o2 s'] eqn:Ebr.
-      apply buf_read_spec in Ebr. destruct Ebr as [_ [B2 _]].
+      apply buf_read_spec in Ebr. destruct Ebr as [B1 [B2 _]].
       destruct o2 as [|x o2]; [discriminate|]. remember (x :: o2) as O eqn:EO.
+      rewrite B1, app_length in HA.
       destruct ((c_remaining c1 - lenN O =? 0) || (k - lenN O =? 0)).
-      - intros E. inversion E. exists O. split; [reflexivity|lia].
-      - intros E. apply IH in E. destruct E as [more [E1 E2]]. exists (O ++ more).
-        rewrite E1, app_assoc, lenN_app. split; [reflexivity|lia]. }
+      - intros E. inversion E. subst out c'. exists O. cbn [c_src]. split; [reflexivity|]. split; lia.
+      - intros E. apply IH in E. destruct E as [more [E1 [E2 E3]]]. exists (O ++ more). cbn [c_src] in E3.
+        rewrite E1, app_assoc, lenN_app, app_length. split; [reflexivity|]. split; lia. }
     destruct (c_state c1) eqn:Est; try (exact (Hgo H)). exact (Hstop H).
 Qed.
 
-Lemma chunked_read_len k c out c' : chunked_read k c = ROk out c' -> lenN out <= k.
+Lemma chunked_read_len k c out c' : chunked_read k c = ROk out c' ->
+  lenN out <= k /\ (length (reach (c_src c')) + length out <= length (reach (c_src c)))%nat.
 Proof.
-  unfold chunked_read. intros H. apply chunked_loop_len in H. destruct H as [more [H1 H2]]. subst out. exact H2.
+  unfold chunked_read. intros H. apply chunked_loop_len in H. destruct H as [more [H1 [H2 H3]]].
+  cbn [List.app] in H1. subst out. split; assumption.
 Qed.
 
 (* ------------------------------------------------------------------ bodies over [later] *)
@@ -163,7 +172,7 @@ Proof.
       as [[e [c' [He [w Hw]]]]|[out [c' [Ho [Hd' [Hb' Hnil]]]]]]; [discriminate|].
     exists out, (BChunked c'). rewrite Ho. cbn [lift rmap bext].
     split; [reflexivity|]. split; [reflexivity|]. split; [cbn [VB]; split; assumption|].
-    split; [exact (chunked_read_len _ _ _ _ Ho)|].
+    split; [exact (proj1 (chunked_read_len _ _ _ _ Ho))|].
     intros C. subst out. rewrite (done_dec c' _ (Hnil eq_refl)), app_nil_r in Hd'. inversion Hd'.
     split; [reflexivity|]. cbn [body_src]. reflexivity.
   - intros [].
@@ -283,7 +292,7 @@ Lemma after_drop_VB orig b acc p : VB b acc p -> Full (body_src b) -> TailOf ori
   exists z, after_drop (bext b) = z ++ later /\ concat z = [] /\ TailOf orig z.
 Proof.
   intros HV Hfull Htail. destruct (VB_rest _ _ _ HV) as [q [Hq Hlen]].
-  destruct (drain_VB (body_fuel b) b acc p q HV Hq Hlen) as [b' [D1 [D2 [D3 D4]]]].
+  destruct (drain_VB (body_fuel b) b acc p q HV Hq Hlen) as [b' [D1 [D2 [[D3 D4] _]]]].
   exists (segs (body_src b')). unfold after_drop. rewrite body_fuel_bext, D1, body_src_bext.
   split; [reflexivity|]. split.
   - apply Full_reach_nil; [exact (D4 Hfull)|exact D2].
@@ -291,3 +300,40 @@ Proof.
 Qed.
 
 End Body.
+
+(* ------------------------------------------------------------------ a body that is cut short or malformed *)
+(* the reader [b] is positioned inside an encoding that the recogniser rejects *)
+Definition IB (b : body) (acc : bytes) : Prop :=
+  match b with
+  | BFixed r => lenN (reach (f_src r)) < f_remaining r
+  | BChunked c => CB c /\ exists w, st_dec c acc = Invalid w
+  | _ => False
+  end.
+
+Lemma read_to_end_invalid fuel : forall b acc, IB b acc -> (length (reach (body_src b)) < fuel)%nat ->
+  exists e b', read_to_end fuel b acc = (inr e, b').
+Proof.
+  induction fuel as [|fuel IH]; intros b acc HI Hf; [lia|].
+  cbn [read_to_end]. destruct b as [r|c|s|s]; cbn [IB body_src] in HI, Hf; try contradiction.
+  - cbn [body_read]. unfold fixed_read.
+    destruct (N.eqb_spec (f_remaining r) 0) as [E|E]; [lia|].
+    destruct (buf_read (N.min (f_remaining r) 8192) (f_src r)) as [out s'] eqn:Ebr.
+    apply buf_read_spec in Ebr. destruct Ebr as [B1 [B2 [B3 B4]]].
+    destruct out as [|o out]; cbn [lift]; [eexists; eexists; reflexivity|].
+    remember (o :: out) as O eqn:EO. rewrite EO. rewrite <- EO.
+    apply IH.
+    + cbn [IB f_src f_remaining]. rewrite B1, lenN_app in HI. lia.
+    + cbn [body_src f_src]. rewrite B1, app_length in Hf. subst O. cbn [length] in Hf. lia.
+  - destruct HI as [Hb [w HD]]. cbn [body_read].
+    assert (HU : Invalid w <> Unspecified) by discriminate.
+    destruct (chunked_read_spec 8192 c acc _ ltac:(lia) Hb HD HU)
+      as [[e [c' [He _]]]|[out [c' [Ho [Hd' [Hb' Hnil]]]]]].
+    + rewrite He. cbn [lift]. eexists; eexists; reflexivity.
+    + rewrite Ho. cbn [lift]. destruct out as [|o out].
+      * exfalso. rewrite (done_dec c' _ (Hnil eq_refl)) in Hd'. discriminate.
+      * remember (o :: out) as O eqn:EO. rewrite EO. rewrite <- EO.
+        apply IH.
+        -- cbn [IB]. split; [exact Hb'|]. exists w. exact Hd'.
+        -- cbn [body_src]. destruct (chunked_read_len _ _ _ _ Ho) as [_ Hl].
+           subst O. cbn [length] in Hl. lia.
+Qed.
